@@ -81,7 +81,7 @@ func c15Payload(c *cx) {
 		{"unknown sid", "!commaok(p0.streams[p2.SID])", "stanza.ItemNotFound"},
 		{"out of sequence", "!eq(*.seq,p2.Seq)", "stanza.UnexpectedRequest"},
 		{"buffer overflow", "and(lt(0,*.maxBufSize) & lt(*.maxBufSize,*))", "stanza.ResourceConstraint"},
-		{"undecodable data", "errors.As(*)", "stanza.BadRequest"},
+		{"undecodable data", "!eq(encoding/base64.Encoding.Decode[*](*)#1,nil)", "stanza.BadRequest"},
 	}
 	mutatesBuf := func(nd ast.Node) bool {
 		bad := false
@@ -104,7 +104,7 @@ func c15Payload(c *cx) {
 		var edges []eng.CondEdge
 		for _, ce := range g.CondEdges() {
 			for _, a := range ce.Atoms {
-				if eng.Glob(t.edge, a.S) || (strings.HasPrefix(t.edge, "and(") && strings.Contains(a.S, ".maxBufSize") && !strings.HasPrefix(a.S, "!") && !strings.HasPrefix(a.S, "or(")) {
+				if eng.Glob(t.edge, a.S) || (t.what == "undecodable data" && eng.Glob("errors.As(*)", a.S)) || (strings.HasPrefix(t.edge, "and(") && strings.Contains(a.S, ".maxBufSize") && !strings.HasPrefix(a.S, "!") && !strings.HasPrefix(a.S, "or(")) {
 					edges = append(edges, ce)
 					break
 				}
@@ -154,13 +154,23 @@ func c15Payload(c *cx) {
 	n := 0
 	for _, cl := range f.AllCalls() {
 		sel, ok := ast.Unparen(cl.Fun).(*ast.SelectorExpr)
-		if !ok || sel.Sel.Name != "ReadFrom" {
+		if !ok || (sel.Sel.Name != "ReadFrom" && sel.Sel.Name != "Write" && sel.Sel.Name != "WriteString") {
 			continue
 		}
 		if k, _ := f.FieldClass(sel.X); k != "ibb.Conn.readBuf" {
 			continue
 		}
 		n++
+		// a refused packet leaves nothing behind: the buffer is not filled by a
+		// streaming decoder (what decoded before a corruption would stay in it)
+		streaming := false
+		if sel.Sel.Name == "ReadFrom" && len(cl.Args) == 1 {
+			pt0, _ := g.Where(cl)
+			if strings.Contains(f.Norm(cl.Args[0], &pt0), "base64.NewDecoder") {
+				streaming = true
+			}
+		}
+		c.r.Check(id, f, "receive buffer filled with completely decoded data", "S: the bytes of a packet reach the receive buffer only after the whole packet was decoded", cl.Pos(), !streaming, "the buffer is filled through a streaming base64 decoder: the bytes that decoded before a corruption are delivered although the packet is refused")
 		c.dom(id, f, cl, "write into the receive buffer", []string{"commaok(p0.streams[p2.SID])", "eq(*.seq,p2.Seq)"})
 		c.domAny(id, f, cl, "write into the receive buffer [size test]", []string{"or(!lt(0,*.maxBufSize) | !lt(*.maxBufSize,*))"})
 		ls, _ := g.Locks(nil).AtNode(cl)
@@ -190,6 +200,11 @@ func c15Seq(c *cx) {
 				}
 				if k == "ibb.Conn.seq" {
 					c.dom(id, f, w.Stmt, "receiver's counter advanced only for the expected packet", []string{"eq(*.seq,p2.Seq)"})
+					// ... and only for a packet that is ACCEPTED: every refusal
+					// (size, undecodable data) comes before the counter moves,
+					// otherwise a refused packet kills the stream for the real sender
+					c.domAny(id, f, w.Stmt, "receiver's counter advanced only after the size test passed", []string{"or(!lt(0,*.maxBufSize) | !lt(*.maxBufSize,*))"})
+					c.domAny(id, f, w.Stmt, "receiver's counter advanced only after the data was decoded", []string{"eq(encoding/base64.Encoding.Decode[*](*)#1,nil)", "!errors.As(*)", "eq(bytes.Buffer.ReadFrom[*](*)#1,nil)"})
 				}
 			}
 		}
@@ -246,8 +261,11 @@ func c15BufLocks(c *cx) {
 	c.r.Floor(id, "buffer operations", n, 5)
 }
 
-func c15Close(c *cx) {
-	id := "C15.6"
+func c15Close(c *cx) { c15CloseAs(c, "C15.6") }
+
+// c15CloseAs runs the close-path rules under another rule id (C09 uses them:
+// a close path that skips a step wedges the serve loop).
+func c15CloseAs(c *cx, id string) {
 	f := c.fn(id, "ibb", "(*Conn).Close")
 	if f != nil {
 		g := f.Graph()
@@ -347,6 +365,27 @@ func c15Close(c *cx) {
 		// removal from the table
 		c.r.Check(id, f, "stream unregistered", "K: a local Close removes the stream from the handler's table", f.Pos(), len(f.Calls("ibb.Handler.rmStream")) == 1, "no rmStream in Close")
 	}
+	for _, cf := range []*eng.Fn{f, c.p.Func("ibb", "(*Conn).closeNoNotify")} {
+		if cf == nil {
+			continue
+		}
+		// once the connection is marked closed it is taken out of the
+		// handler's table on EVERY way out, error returns included: a closed
+		// stream that stays registered keeps accepting the peer's packets
+		cg := cf.Graph()
+		isRm := func(q eng.Point, nd ast.Node) bool { return cf.ContainsCall(nd, "ibb.Handler.rmStream") != nil }
+		for _, w := range cf.FieldWrites("ibb.Conn.closed") {
+			wp, _ := cg.Where(w.Stmt)
+			bad := ""
+			for _, rs := range cg.Returns {
+				rp, _ := cg.Where(rs)
+				if cg.Reachable(cg.After(wp), rp, nil, isRm) {
+					bad = "return at " + c.p.Pos(rs.Pos()) + " leaves the closed stream registered"
+				}
+			}
+			c.r.Check(id, cf, "closed stream unregistered on every path", "S: after the closed flag is set every return (error returns too) has removed the stream from the handler", w.Stmt.Pos(), bad == "", bad)
+		}
+	}
 	cn := c.fn(id, "ibb", "(*Conn).closeNoNotify")
 	if cn != nil {
 		c15ClosedGuard(c, cn)
@@ -355,6 +394,19 @@ func c15Close(c *cx) {
 		for _, cl := range cn.Calls("ibb.Conn.flush") {
 			if len(cl.Args) == 1 && cn.Norm(cl.Args[0], nil) == "p0" {
 				okFlush = true
+			}
+		}
+		// the flush through the handler's encoder is unconditional: it is also
+		// what routes the final base64 block (closeFlushFunc) through that
+		// encoder instead of a blocking IQ sent from inside the handler
+		{
+			g := cn.Graph()
+			isFl := func(q eng.Point, nd ast.Node) bool { return cn.ContainsCall(nd, "ibb.Conn.flush") != nil }
+			for _, cl := range cn.AllCalls() {
+				if k, _ := cn.FieldClass(cl.Fun); k == "ibb.Conn.closeFlushFunc" {
+					pt, _ := g.Where(cl)
+					c.r.Check(id, cn, "final block written after an unconditional flush(t)", "O: every path to the final base64 block passes flush(t)", cl.Pos(), g.MustPassBefore(g.Entry(), pt, isFl, nil), "the final block can be written without the flush through the handler's encoder")
+				}
 			}
 		}
 		c.r.Check(id, cn, "flush through the handler's encoder", "P: remaining data is flushed through the encoder of the handler invocation (the session's lock is held by it)", cn.Pos(), okFlush, "flush not called with the given encoder")
